@@ -140,7 +140,9 @@ theorem waiter_never_fetches {s s' : State} (h : Reachable Facts.waiterRereadsEn
     · simp at hs
   | age u =>
     simp only [step] at hs; split at hs
-    · simp only [Option.some.injEq] at hs; subst hs; simp only; grind
+    · split at hs
+      · simp only [Option.some.injEq] at hs; subst hs; simp only; grind
+      · simp at hs
     · simp at hs
   | tick d =>
     simp only [step] at hs; split at hs
